@@ -42,12 +42,14 @@ PROPS = {
     "C02": dict(
         pkg="c02", level="exploration",
         tests=[T("TestC02", Q(2500), Q(12000, timeout=900, shards=12, shrinktime="60s")),
-               T("TestC02Atomic", Q(1500), Q(6000, timeout=900, shards=4, shrinktime="60s"))],
+               T("TestC02Atomic", Q(1500), Q(6000, timeout=900, shards=4, shrinktime="60s")),
+               T("TestC02AtomicBig", Q(16, timeout=300, shrinktime="20s"), Q(120, timeout=1200, shards=6, shrinktime="60s"))],
         rule="TestC02: rapid histories dominated by TXN commands (0-3 predicates EQUAL/GREATER/LESS/NOT_EQUAL/existence on single keys and ranges, 0-4 ops per branch mixing "
              "range reads, puts, (range) deletes on overlapping keys) placed anywhere in apply batches of 1-4 entries, plus read-only transactions through Lookup which are "
              "additionally compared with the same ops issued individually and with the same txn sent through the log (metamorphic). Non-trivial iff some txn had >=1 predicate and "
              ">=2 ops in the executed branch and touched a key written earlier in the same txn/batch. TestC02Atomic: stamp commands rewrite a key group together while 1-4 reader goroutines "
-             "range-read the group; non-trivial iff readers observed >=2 distinct stamps. Distinct = sha256 of the case JSON.",
+             "range-read the group; non-trivial iff readers observed >=2 distinct stamps. TestC02AtomicBig: the same with padded group values inside Update calls of > 16 MiB "
+             "(filler puts place the 16 MiB mark of pending writes inside the stamp command; trailing fillers keep the call running). Distinct = sha256 of the case JSON.",
         assumptions=FSM_ASSUME + ["atomic-visibility readers run on real goroutines: the oracle is timing-free, only coverage depends on scheduling"],
         technique="stateful property-based testing against a transaction model + metamorphic relations + concurrent readers",
         level_text="Randomised exploration: transaction semantics compared with an independent evaluator on thousands of histories; read-only txn path cross-checked "
@@ -189,13 +191,16 @@ PROPS = {
     ),
     "C07": dict(
         pkg="c07", level="exploration", journal_cases=True,
-        tests=[T("TestC07", Q(24, timeout=300, shards=4, shrinktime="30s"), Q(120, timeout=1500, shards=16, shrinktime="90s"))],
+        tests=[T("TestC07", Q(24, timeout=300, shards=4, shrinktime="30s"), Q(120, timeout=1500, shards=16, shrinktime="90s")),
+               T("TestC07Image", Q(60, timeout=300, shrinktime="20s"), Q(600, timeout=1200, shards=6, shrinktime="60s"))],
         rule="Each case: a leader table with 0-60 generated pairs (values empty..3 KB; thorough also 256 KiB-2 MiB), a target server started with a generated MaxInMemLogSize (0 = unlimited, 1 MiB, 6 MiB, or "
              "2*sum(first j record sizes)+slack so that the half-size batch threshold falls on record j, raised to twice the biggest record so the setting is operable), a target table with 0-5 unrelated pre-restore pairs; "
              "source = backup file (real BackupServer.Backup over gRPC + backup.Restore through the target's Maintenance service, optionally with one flipped byte) or leader snapshot stream (real SnapshotServer.Stream + "
              "worker recovery + Manager.Restore), optionally while a leader goroutine keeps writing a stamped key. Oracle: full Range of the restored table == captured model (nothing lost/altered/added, nothing of the old content), "
              "follower leader index == leader index at capture, with writers content == model at exactly the declared index, corrupted file => error and table unchanged. "
-             "Non-trivial iff >=3 records AND (the batch threshold is crossed inside the stream OR the limit is 0). Distinct = sha256 of case JSON.",
+             "Non-trivial iff >=3 records AND (the batch threshold is crossed inside the stream OR the limit is 0), or an empty captured table restored over data. "
+             "TestC07Image: the table dump behind both sources (fsm.SnapshotRequest) taken by 1-3 goroutines while a generated log is applied in generated Update calls (some with > 16 MiB of pending writes); "
+             "every dump must equal the model after exactly the entry it declares; non-trivial iff dumps at >=2 distinct indices were judged. Distinct = sha256 of case JSON.",
         assumptions=["MaxInMemLogSize is at least twice the biggest record (dragonboat rejects larger proposals permanently)", "single-node leader and target engines, in-process, in-memory file systems, real gRPC over loopback"],
         technique="round-trip property-based testing on real engines (generated content x configuration), model comparison",
         level_text="Randomised exploration of (content, configuration, source) triples on real engines with an exact content oracle.",
